@@ -5,6 +5,7 @@ import (
 	"os"
 	"path/filepath"
 	"sort"
+	"strconv"
 	"strings"
 	"time"
 
@@ -303,6 +304,36 @@ func init() {
 					})
 				})
 			}
+			// characters that some Unicode operation relates to the ASCII ones of the grammar (simple case folding: Kelvin sign,
+			// long s, dotless / dotted i; width: fullwidth letters and digits; compatibility: micro sign, ordinal indicators,
+			// superscripts; invisible ones) in front of, inside and behind every accepted word of length <= 2 - the grammar is
+			// an ASCII one, none of these is in it
+			relatives := []string{"\u212a", "\u017f", "\u0131", "\u0130", "\uff41", "\uff21", "\uff11", "\u00b5", "\u00aa", "\u00b2", "\u0660", "\u00a0", "\u200d", "\u200b", "\u2028", "\u0301", "\x7f", "\x00", "\t", "\r", "\u00df", "\u03a9"}
+			for _, p := range positions {
+				p := p
+				words([]string{"a", "k", "S", "1"}, 2, func(base string) {
+					if !p.ok(base) {
+						return
+					}
+					for _, r := range relatives {
+						r, _ := strconv.Unquote(`"` + r + `"`)
+						seen := map[string]bool{}
+						for i := 0; i <= len(base); i++ {
+							x := base[:i] + r + base[i:]
+							if seen[x] {
+								continue
+							}
+							seen[x] = true
+							id := fmt.Sprintf("relatives-of-ascii/%s/%q", p.id, x)
+							w.Case(id, func(c *C) {
+								c.Distinct("all", id)
+								c.Distinct("nontrivial", id)
+								eval(c, p, x)
+							})
+						}
+					}
+				})
+			}
 			// scalar node kinds in string positions are judged on their text (yaml.v3 hands any scalar to a string field);
 			// null means "absent"; sequences and mappings are rejected
 			kinds := []struct {
@@ -587,6 +618,26 @@ func init() {
 					c.Decorators = append(c.Decorators, Decorator{Tag: "bad tag", Decorator: "1x", Args: []any{Raw("[1]"), Raw("{}")}})
 				}, [][]string{{"decorators", "tag"}, {"decorators", "method"}, {"decorators", "arguments", "0:"}, {"decorators", "arguments", "1:"}}},
 			}
+			// the same at the compile stage: several malformed arguments of one service / one decorator, one diagnostic each,
+			// every one under the step's name and the entity's prefix
+			same = append(same, []struct {
+				id    string
+				apply func(c *Cfg)
+				names [][]string
+			}{
+				{"service-several-malformed-arguments", func(c *Cfg) {
+					c.Services = append(c.Services,
+						Service{Name: "sMany", Constructor: P("pk.New"), Args: []any{"@ x", "!tagged a b", "!value 1x", "ok"}, Calls: []Call{{Method: "Set1", Args: []any{"@ y", "!tagged c d"}}, {Method: "Set2", Args: []any{"@ z"}}}, Fields: []KV{{"F1", "@ q"}, {"F2", "!value 2x"}}},
+						Service{Name: "sOther", Constructor: P("pk.New"), Args: []any{"@ w"}})
+				}, [][]string{{"=9"}, {"compiler.StepCompileServices:", `"sMany"`, "fields", `"F1"`, "invalid service"}, {"compiler.StepCompileServices:", `"sMany"`, "fields", `"F2"`, "invalid value"}, {"compiler.StepCompileServices:", `"sMany"`, "args: 0", "invalid service"}, {"compiler.StepCompileServices:", `"sMany"`, "args: 1", "invalid tag"}, {"compiler.StepCompileServices:", `"sMany"`, "args: 2", "invalid value"},
+					{"compiler.StepCompileServices:", `"sMany"`, "calls: 0", "args: 0", "invalid service"}, {"compiler.StepCompileServices:", `"sMany"`, "calls: 0", "args: 1", "invalid tag"}, {"compiler.StepCompileServices:", `"sMany"`, "calls: 1", "args: 0", "invalid service"}, {"compiler.StepCompileServices:", `"sOther"`, "args: 0", "invalid service"}}},
+				{"decorator-several-malformed-arguments", func(c *Cfg) {
+					c.Decorators = append(c.Decorators, Decorator{Tag: "tgm", Decorator: "pk.Dec1", Args: []any{"@ x", "!tagged a b", "ok", "!value 1x"}}, Decorator{Tag: "tgm", Decorator: "pk.Dec2", Args: []any{"@ x"}})
+				}, [][]string{{"=4"}, {"compiler.StepCompileDecorators:", `"pk.Dec1"`, "args: 0", "invalid service"}, {"compiler.StepCompileDecorators:", `"pk.Dec1"`, "args: 1", "invalid tag"}, {"compiler.StepCompileDecorators:", `"pk.Dec1"`, "args: 3", "invalid value"}, {"compiler.StepCompileDecorators:", `"pk.Dec2"`, "args: 0", "invalid service"}}},
+				{"parameters-several-malformed", func(c *Cfg) {
+					c.Params = append(c.Params, Param{"m1", "50%"}, Param{"m2", "%nofn()%"}, Param{"m3", "%a b%"}, Param{"m4", "%%%"})
+				}, [][]string{{"=4"}, {`"m1"`}, {`"m2"`}, {`"m3"`}, {`"m4"`}}},
+			}...)
 			for _, sm := range same {
 				sm := sm
 				w.Case("same-entity/"+sm.id, func(c *C) {
@@ -689,6 +740,7 @@ func init() {
 					}
 					c.Distinct("all", c.ID)
 					w.ShapeInvarianceOK(c, c.ID, []File{{"c.yaml", cfg.YAML()}}, len(sel) == 0)
+					w.NameInvariance(c, c.ID, cfg)
 				})
 			}
 			multi("validate", c11defects(), "compiler.StepValidateInput:")
